@@ -70,7 +70,7 @@ def kinds_of(res):
         return []
     if res.get('died'):
         return ['timeout' if res.get('timed_out') else 'died']
-    if res.get('infra') or (res.get('err', '').startswith('setup:')):
+    if res.get('infra') or res.get('err', '').startswith('setup:') or res.get('err', '').startswith('harness:'):
         return ['infra']
     if res.get('diffs'):
         return sorted(set(d['kind'] for d in res['diffs']))
@@ -195,6 +195,16 @@ def follower_check(pid, tier, scratch, replay, plan):
         raise Infra('no behaviours generated')
     # 3. conformance: replay into the real code
     results = replay_jobs(scratch, jobs)
+    # a verdict needs reproducible behaviour: anything that died or timed out is re-run alone
+    redo = [i for i, r in enumerate(results) if r is None or r.get('died') or r.get('infra')]
+    flaky = 0
+    if redo and len(redo) <= 40:
+        again = replay_jobs(scratch, [jobs[i] for i in redo])
+        for i, r in zip(redo, again):
+            if r is not None and not r.get('died'):
+                flaky += 1
+                r['index'] = i
+                results[i] = r
     compared = sum((r or {}).get('compared', 0) for r in results)
     violations, known_hits, infra, other = [], {}, [], 0
     sigs = {}
@@ -243,7 +253,7 @@ def follower_check(pid, tier, scratch, replay, plan):
     cov = dict(states=max(states, 1), transitions=max(transitions, 1), traces_validated_against_impl=len(jobs) - len(infra),
                samples=samples, quiescent_points_compared=compared, distinct_histories=distinct_acts,
                regression_histories=n_regress, model_runs=mc_runs, generator_runs=gen_runs,
-               replays_failed_for_infrastructure=len(infra), behaviours_with_only_other_properties_diffs=other,
+               replays_failed_for_infrastructure=len(infra), died_once_but_not_when_rerun_alone=flaky, behaviours_with_only_other_properties_diffs=other,
                known_finding_hits={k: len(v) for k, v in known_hits.items()},
                decided_diff_kinds=sorted(own), exhaustive=False,
                rule='behaviours = every history (exhaustive generator runs) or seeded random histories (simulate runs) of spec/Gen.tla over the listed universes; each is stepped through the real follower goroutine and at every quiescent point the wallet API is compared with the view computed by the specification')
@@ -315,3 +325,23 @@ def plan_check(plan):
 
 
 PROPS = {'C01': plan_check(PLAN_C01), 'C09': plan_check(PLAN_C09), 'C10': plan_check(PLAN_C10)}
+
+KINDS['C06'] = ['quiescent-not-on-best', 'synced-height', 'total-balance', 'utxo-missing', 'utxo-extra', 'utxo-differs', 'utxo-duplicate',
+                'balance-total', 'balance-spendable', 'balance-wstaking', 'balance-wbinding', 'deposit-missing', 'deposit-extra', 'deposit-differs',
+                'address-not-listed', 'address-used', 'pending-set-missing', 'pending-set-extra', 'pending-unreadable', 'utxo-sbu',
+                'use-wallet', 'api-error', 'died', 'timeout', 'step-error']
+CR = {'Crashes': 'TRUE'}
+PLAN_C06 = dict(
+    level='model_checking',
+    mc=dict(quick=[('MC_Crash.cfg', 'MC_Sync.tla', {'MaxBlocks': '5'})],
+            thorough=[('MC_Crash.cfg', 'MC_Sync.tla', {'MaxBlocks': '6'})]),
+    gens=[gen('Gen_Pay.cfg', 'MC_Pay.tla',
+              quick=[SIM(140, 14, **CR), SIM(60, 14, **dict(CR, **P))],
+              thorough=[EXH(6, 3000, **CR), SIM(2000, 16, **CR), SIM(1000, 16, **dict(CR, **P))]),
+          gen('Gen_Stake.cfg', 'MC_Stake.tla', universe_extra=STAKE_X,
+              quick=[SIM(60, 14, **CR)],
+              thorough=[SIM(1000, 16, **dict(CR, **P))])],
+    assume=['a crash is a process crash: the wallet database directory is copied as the OS sees it right after the last commit (LevelDB writes are handed to the OS at commit, not fsynced); power loss is outside the statement',
+            'every handler step is one database commit, so a Crash action between any two actions of a history is a crash at every commit boundary; RestartCrash(k) places a crash after the k-th commit of the catch-up'],
+)
+PROPS['C06'] = plan_check(PLAN_C06)
